@@ -19,8 +19,8 @@
                                 `(step s item).1` in order (each one `?`-propagated) and then continues
                                 with the new state, returns `Err(e)` or panics as `(step s item).2` says.
   * `callsLoop step`          : the same loop in front of a writer that accepts everything: the calls it
-                                makes, in order, and how it ends; `runCalls P hist` replays such a trace
-                                against a writer (`Lemmas/Writer.lean`: `writeLoopW = runCalls ∘ callsLoop`).
+                                makes, in order, and how it ends; `replayCalls P hist` replays such a trace
+                                against a writer (`Lemmas/Writer.lean`: `writeLoopW = replayCalls ∘ callsLoop`).
   The result of a threaded function is `(bytes the writer accepted, outcome)`.
 -/
 import XotModel.Model.OutputTypes
@@ -50,7 +50,7 @@ def writeCalls (P : WriterPolicy) : List Str → List Str → Except Str (List S
 
 /-- A trace (the calls a function makes in front of a never-failing writer, and how it ends) replayed
     against the writer `P`: `Io` at the first refused call, else the trace's own end. -/
-def runCalls (P : WriterPolicy) (hist : List Str) (tr : List Str × Outcome XotError Unit) :
+def replayCalls (P : WriterPolicy) (hist : List Str) (tr : List Str × Outcome XotError Unit) :
     Str × Outcome XotError Unit :=
   match writeCalls P hist tr.1 with
   | .ok h => (h.flatten, tr.2)
